@@ -48,6 +48,9 @@ def run(ctx):
             isinstance(r.value, ast.Constant) and r.value.value is None) for r in walk_no_nested(f.node))
 
     funcs = [f for n, f in R.methods.items() if self_calls(f, R.sender.name) and (status_comparing(f) or returns_value(f))]
+    import json as _json, os as _os
+    with open(_os.path.join(_os.path.dirname(_os.path.dirname(_os.path.abspath(__file__))), "ref", "known_functions.json")) as _fp:
+        known_ops = set(_json.load(_fp)["names"].get("managesieve", {}).get("Client", []))
     ctx.need("Q1", "status-comparing functions", len(funcs), 12)
     for f in funcs:
         try:
@@ -67,7 +70,8 @@ def run(ctx):
                 continue
             v = p["value"]
             t = fd.truth(v)
-            if code == "OK" and t is False and len(p["codes"]) == 1:
+            if code == "OK" and t is False and len(p["codes"]) == 1 and f.name in known_ops:
+                # (what an operation added later returns on success is its own business: only its NO answer is judged)
                 bad = bad or ("returns %r although the reply is OK" % (getattr(v, "v", v),), p)
             if code == "NO" and not (isinstance(v, fd.Const) and not v.v):
                 bad = bad or ("returns %r although the reply is NO" % (getattr(v, "v", v),), p)
